@@ -1285,7 +1285,9 @@ func (m *KV) Delete(key string) error {
 
 	if newver > 0 {
 		m.notifyWatchers(key)
-		m.broadcastNewValue(key, change, newver, c, false, deleted, updated)
+		if change != nil {
+			m.broadcastNewValue(key, change, newver, c, false, deleted, updated)
+		}
 	}
 
 	level.Info(m.logger).Log("msg", "successfully marked key for deletion", "key", key)
@@ -1339,6 +1341,10 @@ outer:
 			m.notifyWatchers(key)
 
 			m.broadcastNewValue(key, change, newver, codec, true, deleted, updated)
+		} else if newver > 0 {
+			// The stored value changed, but there is nothing to gossip.
+			m.casSuccesses.Inc()
+			m.notifyWatchers(key)
 		}
 
 		return nil
@@ -1557,7 +1563,9 @@ func (m *KV) processValueUpdate(workerCh <-chan valueUpdate, key string) {
 				m.notifyWatchers(key)
 
 				// Don't resend original message, but only changes, if any.
-				m.broadcastNewValue(key, mod, version, update.codec, false, deleted, updated)
+				if mod != nil {
+					m.broadcastNewValue(key, mod, version, update.codec, false, deleted, updated)
+				}
 			}
 
 			if version == 0 && !m.keyExists(key) {
@@ -1777,7 +1785,9 @@ func (m *KV) MergeRemoteState(data []byte, _ bool) {
 			level.Error(m.logger).Log("msg", "failed to store received value", "key", kvPair.Key, "err", err)
 		} else if newver > 0 {
 			m.notifyWatchers(kvPair.Key)
-			m.broadcastNewValue(kvPair.Key, change, newver, codec, false, deleted, updated)
+			if change != nil {
+				m.broadcastNewValue(kvPair.Key, change, newver, codec, false, deleted, updated)
+			}
 		}
 	}
 
@@ -1833,6 +1843,7 @@ func (m *KV) mergeValueForKey(key string, incomingValue Mergeable, incomingValue
 	}
 	newUpdated = curr.UpdateTime
 	newDeleted = curr.Deleted
+	noChangeToGossip := false
 
 	// If incoming value is newer, use its timestamp and deleted value
 	if !updateTime.IsZero() && updateTime.After(newUpdated) && deleted {
@@ -1860,7 +1871,13 @@ func (m *KV) mergeValueForKey(key string, incomingValue Mergeable, incomingValue
 		if change != nil {
 			change.RemoveTombstones(limit)
 			if len(change.MergeContent()) == 0 {
-				return nil, 0, curr.Deleted, curr.UpdateTime, nil
+				if curr.Deleted == newDeleted {
+					// Nothing is left to gossip, but Merge has already applied the change to the stored
+					// value in place (e.g. an expired tombstone has just removed a live entry), so the
+					// value still gets a new version and callers still notify the watchers.
+					noChangeToGossip = true
+				}
+				change = nil
 			}
 		}
 	}
@@ -1883,6 +1900,9 @@ func (m *KV) mergeValueForKey(key string, incomingValue Mergeable, incomingValue
 	// state. Therefore, make sure we clone it before releasing the lock.
 	if change != nil {
 		change = change.Clone()
+	}
+	if noChangeToGossip {
+		change = nil
 	}
 	return change, newVersion, newDeleted, newUpdated, nil
 }
